@@ -93,6 +93,23 @@ def gate():
     return bad
 
 
+class coq_lock:
+    """Checks of different properties may be started at the same time; they share /verif/coq (make, the regenerated Gen/ files).
+    Every phase that runs Coq holds this exclusive lock, so concurrent checks take turns there and run their implementations in parallel."""
+
+    def __enter__(self):
+        import fcntl
+        self.f = open(os.path.join(COQ, '.verif.lock'), 'w')
+        fcntl.flock(self.f, fcntl.LOCK_EX)
+        return self
+
+    def __exit__(self, *a):
+        import fcntl
+        fcntl.flock(self.f, fcntl.LOCK_UN)
+        self.f.close()
+        return False
+
+
 def coq_make(targets, timeout=1500):
     if not os.path.exists(os.path.join(COQ, 'Makefile')):
         rc, out = sh('coq_makefile -f _CoqProject -o Makefile', cwd=COQ, timeout=60)
@@ -306,14 +323,15 @@ def main(argv):
     # 2. build
     targets = [f'Properties/{pid}.vo'] + [prop.TIE.replace('.', '/') + '.vo']
     pre_notes = []
-    if hasattr(prop, 'pre_build'):
-        pre_notes = prop.pre_build() or []   # translator units: list of (name, ok, detail)
-    ok_build, blog = coq_make(targets)
-    proof_broken = None
-    if not ok_build:
-        proof_broken = blog[-4000:]
-        log('[build failed]\n' + proof_broken)
-    ok_pa, n_thm, thm_names, n_closed, axioms, palog = print_assumptions(pid)
+    with coq_lock():
+        if hasattr(prop, 'pre_build'):
+            pre_notes = prop.pre_build() or []   # translator units: list of (name, ok, detail)
+        ok_build, blog = coq_make(targets)
+        proof_broken = None
+        if not ok_build:
+            proof_broken = blog[-4000:]
+            log('[build failed]\n' + proof_broken)
+        ok_pa, n_thm, thm_names, n_closed, axioms, palog = print_assumptions(pid)
     if not ok_pa and not proof_broken:
         proof_broken = palog[-4000:]
     discharged = n_thm if (ok_pa and ok_build) else 0
@@ -374,19 +392,20 @@ def main(argv):
         idxmap.append(k)
     bad = []
     tie_ok, tielog = True, ''
-    if ok_build and terms:
-        tie_ok, badi, tielog = run_shards(pid, prop.TIE, terms, shard=getattr(prop, 'SHARD', 250),
-                                          header_extra=getattr(prop, 'HEADER', ''))
-        bad = [idxmap[i] for i in badi]
-        if not tie_ok:
-            log('[tie evaluation failed]\n' + tielog[-3000:])
     extra_checks = []
-    if ok_build and hasattr(prop, 'extra_coq'):
-        # per-run Coq obligations (certificates); list of (name, ok, detail)
-        try:
-            extra_checks = prop.extra_coq(cases, outs, os.path.join(BUILD, pid)) or []
-        except Exception as e:
-            extra_checks = [('per-run certificates', False, f'{type(e).__name__}: {e} :: {traceback.format_exc()[-600:]}')]
+    with coq_lock():
+        if ok_build and terms:
+            tie_ok, badi, tielog = run_shards(pid, prop.TIE, terms, shard=getattr(prop, 'SHARD', 250),
+                                              header_extra=getattr(prop, 'HEADER', ''))
+            bad = [idxmap[i] for i in badi]
+            if not tie_ok:
+                log('[tie evaluation failed]\n' + tielog[-3000:])
+        if ok_build and hasattr(prop, 'extra_coq'):
+            # per-run Coq obligations (certificates); list of (name, ok, detail)
+            try:
+                extra_checks = prop.extra_coq(cases, outs, os.path.join(BUILD, pid)) or []
+            except Exception as e:
+                extra_checks = [('per-run certificates', False, f'{type(e).__name__}: {e} :: {traceback.format_exc()[-600:]}')]
 
     # 6. decide
     known = load_known(pid)
